@@ -473,6 +473,8 @@ def catalogue():
     add('symvec', lambda A, x: A.symvec(x), shape=(2, 2), group='shape')
     add('symvec(L)', lambda A, x: A.symvec(x, 'L'), shape=(2, 2), group='shape')
     add('vecsym', lambda A, x: A.vecsym(x), group='shape')
+    add('symvec(U)', lambda A, x: A.symvec(x, 'U'), shape=(2, 2), group='shape')
+    add('symvec(3x3,F)*vecsym', lambda A, x: A.vecsym(A.symvec(x, 'F')) * x, shape=(3, 3), group='shape')
     add('tile', lambda A, x: A.tile(x, 2), group='shape')
     add('tile(2,2)', lambda A, x: A.tile(x, (2, 2)), group='shape')
     add('tile(int64(2))', lambda A, x: A.tile(x, np.int64(2)), group='shape')
@@ -621,6 +623,8 @@ def catalogue():
     add('imag(z)+imag(z*z)', lambda A, x: (lambda z: A.imag(z) + A.imag(z * z))(A.fft.fft(x)), shape=(4,), group='fft')
     add('imag(w)*real(w*w)', lambda A, x: (lambda w: A.imag(w) * A.real(w * w))(x * (1 + 2j)), group='fft')
     add('real(x)*x', lambda A, x: A.real(x) * x + x * x * x, group='fft')
+    add('real(conj(w)*w*w)', lambda A, x: (lambda w: A.real(A.conjugate(w) * (w * w)))(x * (1 + 2j)), group='fft')
+    add('imag(conj(fft(x))*x)', lambda A, x: A.imag(A.conjugate(A.fft.fft(x)) * x), shape=(4,), group='fft')
     add('real(fft(x,n=2))', lambda A, x: A.real(A.fft.fft(x, n=2)) * x[:2], shape=(4,), group='fft')
     add('imag(fft(x,n=4))', lambda A, x: A.imag(A.fft.fft(x, n=4)), shape=(2,), group='fft')
     add('real(ifft(x))', lambda A, x: A.real(A.fft.ifft(x)) * x, shape=(4,), group='fft')
